@@ -279,7 +279,9 @@ IncParams(ts, p0) ==
 PEmbedBody(ts, p0, acc) ==
   LET q == NS(ts, p0) IN
   IF ts[q].typ \in {"EOF", "ERROR"} THEN PErr(q)
-  ELSE IF ts[q].typ # "TAG_OPEN" THEN PEmbedBody(ts, q + 1, acc)
+  ELSE IF ts[q].typ = "TEXT" THEN PEmbedBody(ts, q + 1, acc)
+  (* a print or a comment between the blocks is not part of the embed, but it is source: it has to be well formed *)
+  ELSE IF ts[q].typ # "TAG_OPEN" THEN (LET st == PStmt(ts, q) IN IF ~st.ok THEN st ELSE PEmbedBody(ts, st.p, acc))
   ELSE LET a == NS(ts, q + 1) IN
        IF ts[a].typ # "NAME" THEN PErr(a)
        ELSE IF IsNm(ts, a, "endembed") THEN
